@@ -53,3 +53,8 @@ register("C18", ["c18"],
          "Static guard table of ValidatorAddrs::update over every batch entry (duplicate / member / stored / newer / signature atoms; 32 valuations) deciding when an entry is stored, verified, skipped or fails the batch; the all-or-nothing publish is decided structurally (the batch is applied to a local produced by Clone::clone, send_replace is dominated by the batch's success and runs only on Ok(true), no other caller applies a batch); is_newer is compared as a term with the strict lexicographic (version, timestamp) order; exact writer set of the address map; the RPC handler passes the current epoch's schedule. Convergence across nodes follows from the total order and is not computed.",
          ["validator signature unforgeability", "tokio watch lock serialises updates"],
          TRUSTED)
+
+register("C02", ["c02", "c04"],
+         "Static decision tables and ingredient terms of the re-proposal rule: get_implied_block is enumerated over (justification kind, high vote, high QC, number order) and each outcome site is classified by its return terms; TimeoutQC::high_vote is checked for what it tallies (key = the voted BlockHeader, quantity = Signers::weight, only entries with a vote), the qualifying comparison (>= subquorum_threshold) and uniqueness (exactly one); high_qc is compared with max-by-view over the entries' high QCs; the replica's payload table (vote only for the implied hash, or for a fresh payload after verify_payload succeeded) and the proposer's table are enumerated; certificate verification obligations are imported from C04. The combinatorial safety argument (2f < n-3f) rests on C07 and the hand lemma; multi-view histories are not explored.",
+         ["the C07 lemma", "certificates inside accepted messages were verified (C04 rules run with this property)"],
+         TRUSTED)
